@@ -406,3 +406,89 @@ def bool_branches(body, bb):
     if cond and cond.get("negated"):
         return f, t
     return t, f
+
+
+def expr_tree(body, op, depth=6):
+    """Symbolic expression of an operand, following single-definition temporaries:
+    ('const', n) | ('named', key) | ('var', name) | ('field', base_expr, name) | ('bin', op, a, b) | ('cast', a)
+    | ('call', callee_key, [args]) | ('local', l) | ('?',)"""
+    if op[0] == "c":
+        v = F.const_int(op)
+        if v is not None:
+            return ("const", v)
+        c = op[2]
+        if isinstance(c, dict) and "named" in c:
+            return ("named", c["named"])
+        return ("?",)
+    pl = F.op_place(op)
+    if pl is None:
+        return ("?",)
+    return place_tree(body, pl, depth)
+
+
+def place_tree(body, pl, depth=6):
+    l, proj = pl
+    fields = [e[3] for e in proj if isinstance(e, list) and e[0] == "f"]
+    name = body.local_name(l)
+    base = None
+    if name and (body.locals[l][2] or l <= body.argc):
+        base = ("var", name, l)
+    elif depth > 0:
+        r = single_def_rvalue(body, l)
+        if r is not None:
+            rv = r[1]
+            if rv[0] == "use":
+                base = expr_tree(body, rv[1], depth - 1)
+            elif rv[0] == "cast":
+                base = ("cast", expr_tree(body, rv[2], depth - 1))
+            elif rv[0] == "bin":
+                base = ("bin", rv[1].replace("WithOverflow", ""), expr_tree(body, rv[2], depth - 1), expr_tree(body, rv[3], depth - 1))
+            elif rv[0] == "ref":
+                base = place_tree(body, rv[2], depth - 1)
+            elif rv[0] == "un":
+                base = ("un", rv[1], expr_tree(body, rv[2], depth - 1))
+        else:
+            c = single_def_call(body, l)
+            if c is not None:
+                t = c[1]
+                ck = F.callee_key(t) or "?"
+                if any(ck.endswith(s) for s in TRANSPARENT) and F.call_args(t):
+                    base = expr_tree(body, F.call_args(t)[0], depth - 1)
+                else:
+                    base = ("call", ck, [expr_tree(body, a, depth - 1) for a in F.call_args(t)])
+    if base is None:
+        base = ("var", name, l) if name else ("local", l)
+    # overflow pair projection `.0` of a checked op is the op itself
+    if base[0] == "bin" and fields == ["0"]:
+        return base
+    for f in fields:
+        base = ("field", base, f)
+    return base
+
+
+def tree_str(t):
+    k = t[0]
+    if k == "const":
+        return str(t[1])
+    if k == "named":
+        return t[1].rsplit("::", 1)[-1]
+    if k == "var":
+        return t[1]
+    if k == "field":
+        return tree_str(t[1]) + "." + t[2]
+    if k == "bin":
+        sym = {"Add": "+", "Sub": "-", "Mul": "*", "Div": "/", "Rem": "%", "BitAnd": "&", "BitOr": "|", "Shl": "<<", "Shr": ">>",
+               "Lt": "<", "Le": "<=", "Gt": ">", "Ge": ">=", "Eq": "==", "Ne": "!="}.get(t[1], t[1])
+        a, b = tree_str(t[2]), tree_str(t[3])
+        if t[1] in ("Add", "Mul", "BitAnd", "BitOr", "Eq", "Ne") and b < a:
+            a, b = b, a   # commutative: canonical operand order
+        return "(%s %s %s)" % (a, sym, b)
+    if k == "cast":
+        return tree_str(t[1])
+    if k == "un":
+        return "%s(%s)" % (t[1], tree_str(t[2]))
+    if k == "call":
+        return "%s(%s)" % (t[1].rsplit("::", 1)[-1], ", ".join(tree_str(a) for a in t[2]))
+    if k == "local":
+        return "_%d" % t[1]
+    return "?"
